@@ -65,6 +65,7 @@ def below_axioms():
           z3.ForAll([x, n, i], z3.Implies(z3.And(below(x, n), S.is_tup(x), i >= 0, i < z3.Length(S.items(x))),
                                           below(S.items(x)[i], n)),
                     patterns=[z3.MultiPattern(below(x, n), S.items(x)[i])])]
+    ax.append(S.at_axiom())
     from .sorts import _VALUE_CLASSES
     for cname, fields in _VALUE_CLASSES.items():
         for f in fields:
@@ -1546,8 +1547,18 @@ def bitop(op, a, b, width=None):
     return z3.Sum(terms)
 
 
+import itertools as _it
+_sk_counter = _it.count()
+
+
 def split_goal(goal, depth=0):
     """split a goal into (extra hypotheses, conjunct) pairs: And, Implies(_, And), If(c, A, B) at the top"""
+    if depth <= 6 and z3.is_quantifier(goal) and goal.is_forall():
+        # a universal goal is proved for fresh constants (skolemisation of the negated goal), then split further
+        n = goal.num_vars()
+        consts = [z3.Const(f'sk!{goal.var_name(i)}!{next(_sk_counter)}', goal.var_sort(i)) for i in range(n)]
+        body = z3.substitute_vars(goal.body(), *reversed(consts))
+        return split_goal(body, depth + 1)
     if depth > 6 or not z3.is_app(goal):
         return [([], goal)]
     if z3.is_and(goal):
